@@ -603,22 +603,30 @@ impl ConfigUser for SerTemplate {
 
 struct SerBoth;
 impl ConfigUser for SerBoth {
-    type Out = (Result<String, ()>, Result<String, ()>, bool);
+    type Out = Ser3;
     fn use_config<P: HProblem>(self, config: &Configuration<P>, _problem: &P) -> Self::Out {
-        let (r, j) = (ron_of(config, "p"), json_of(config));
+        let (r, j, t) = (ron_of(config, "p"), json_of(config), tree_of(config));
         let cl = config.clone();
-        let ceq = ron_of(&cl, "pc") == r && json_of(&cl) == j;
-        (r, j, ceq)
+        let ceq = ron_of(&cl, "pc") == r && json_of(&cl) == j && tree_of(&cl) == t;
+        (r, j, ceq, t)
     }
 }
 
-fn pair_out(a: &(Result<String, ()>, Result<String, ()>, bool), bb: &(Result<String, ()>, Result<String, ()>, bool), json_relevant: bool) -> String {
+type Ser3 = (Result<String, ()>, Result<String, ()>, bool, Result<String, ()>);
+fn tree_of<P: Problem>(config: &Configuration<P>) -> Result<String, ()> {
+    match catch(|| hcommon::sertree::to_sexp(config.heuristic())) {
+        Some(Ok(s)) => Ok(s),
+        _ => Err(()),
+    }
+}
+fn pair_out(a: &Ser3, bb: &Ser3, json_relevant: bool) -> String {
     let a_ok = a.0.is_ok() && a.1.is_ok();
     let b_ok = bb.0.is_ok() && bb.1.is_ok();
     list(["pair".into(),
           list(["a".into(), if a_ok { "ok".into() } else { "err".to_string() }]),
           list(["b".into(), if b_ok { "ok".into() } else { "err".to_string() }]),
           list(["ron-eq".into(), b(a.0 == bb.0)]),
+          list(["tree-eq".into(), b(a.3 == bb.3 && a.3.is_ok())]),
           list(["json-eq".into(), if json_relevant { b(a.1 == bb.1) } else { "-".into() }]),
           list(["clone-eq".into(), b(a.2 && bb.2)])])
 }
@@ -675,14 +683,14 @@ fn mk_comp(n: &Sx) -> Box<dyn Component<SP>> {
         _ => panic!("comp {name}"),
     }
 }
-fn ser_tree(n: &Sx, tag: &str) -> (Result<String, ()>, Result<String, ()>, bool) {
+fn ser_tree(n: &Sx, tag: &str) -> Ser3 {
     match catch(|| Configuration::<SP>::new(mk_comp(n))) {
-        None => (Err(()), Err(()), false),
+        None => (Err(()), Err(()), false, Err(())),
         Some(config) => {
-            let (r, j) = (ron_of(&config, tag), json_of(&config));
+            let (r, j, t) = (ron_of(&config, tag), json_of(&config), tree_of(&config));
             let cl = config.clone();
-            let ceq = ron_of(&cl, "gc") == r && json_of(&cl) == j;
-            (r, j, ceq)
+            let ceq = ron_of(&cl, "gc") == r && json_of(&cl) == j && tree_of(&cl) == t;
+            (r, j, ceq, t)
         }
     }
 }
@@ -844,7 +852,7 @@ fn gen_trig(r: &mut Sm) -> String {
     match r.below(8) {
         0 | 1 => "always".into(),
         2 => "never".into(),
-        3 | 4 => format!("(every {})", r.range(1, 3)),
+        3 | 4 => format!("(every {})", r.range(0, 3)),
         5 => "(not (every 2))".into(),
         6 => format!("(not {})", *r.pick(&["always", "never"])),
         _ => {
@@ -921,6 +929,7 @@ fn main() {
         "(rules (many always evals best xid) (many (not (every 3)) (named 1 iter) (named 1 x)))",
         "(rules (r always (named 3 (const 1))) (many always xid xval) clear (r (every 2) xid))",
         "(rules (r always xid) clear)",
+        "(rules (r (every 0) xid) (r always (named 0 iter)) (r (not (every 0)) (named 1 x)))",
     ];
     let placements: Vec<Box<dyn Fn(u64) -> String>> = vec![
         Box::new(|n| format!("(tree (log) (loop {n} (addx 1)))")),
@@ -1019,7 +1028,7 @@ fn main() {
         for &v in &variants {
             let reps = if a.thorough { 6 } else { 2 };
             for _ in 0..reps {
-                let (k1, k2, k3) = (r.range(1, 3), r.range(1, 4), r.range(1, 5));
+                let (k1, k2, k3) = (r.range(0, 3), r.range(1, 4), r.range(0, 5));
                 let iters = r.below(8);
                 emit(format!("(tl {} {} {} {} {} {})", tl_rules(k1, k2, k3), name, v, r.below(N_INSTANCES as u64), iters, r.below(1000)));
             }
